@@ -69,7 +69,7 @@ Stats == PrintT(<<"STATS", [nodes |-> NLog,
    rebases |-> Count(LAMBDA nd : OkAct(nd, "Rebase") /\ nd.args.amt > 0),
    rejected |-> Count(LAMBDA nd : IsStep(nd) /\ ~nd.res.ok),
    panics |-> Count(LAMBDA nd : IsStep(nd) /\ nd.res.panic),
-   deviations |-> Count(Dev),
-   twoBooks |-> Count(LAMBDA nd : \E as \in Assets : Cardinality({app \in Apps : nd.st.book[app][as].done}) > 1) ]>>)
+   thirdApp |-> Count(LAMBDA nd : \E as \in Assets : nd.st.book["a3"][as].done),
+   deviations |-> Count(Dev) ]>>)
 AllSeen == Stats /\ TLCGet("stats").distinct = NLog
 =============================================================================
